@@ -350,7 +350,7 @@ static void make_conn(Conn& c, int ci, Kind kind, bool both_lib, bool small, vt:
     if (photon_connects) {
         auto cli = g_et ? net::new_et_tcp_socket_client() : (kind == K_UDS ? net::new_uds_client() : net::new_tcp_socket_client());
         if (small) { cli->setsockopt<int>(SOL_SOCKET, SO_SNDBUF, snd); cli->setsockopt<int>(SOL_SOCKET, SO_RCVBUF, rcv); }
-        cli->timeout(3 * 1000 * 1000);
+        cli->timeout(30 * 1000 * 1000);          // generous: the machine may be heavily loaded
         cs = kind == K_UDS ? cli->connect(path.c_str(), path.size()) : cli->connect(net::EndPoint(net::IPAddr("127.0.0.1"), port));
         delete cli;
         if (!cs) throw Fail{"photon connect"};
@@ -366,7 +366,11 @@ static void make_conn(Conn& c, int ci, Kind kind, bool both_lib, bool small, vt:
     }
     if (srv) { photon::thread_join(jh); if (!as) throw Fail{"photon accept"}; }
     else {
-        for (int i = 0; i < 2000 && afd < 0; i++) { afd = accept(lfd, nullptr, nullptr); if (afd < 0) photon::thread_usleep(500); }
+        {   // the connection is already established in the kernel; be generous on a heavily loaded machine
+            uint64_t t0 = photon::__update_now();
+            set_nb(lfd);
+            while (afd < 0 && photon::now - t0 < 30 * 1000 * 1000) { afd = accept(lfd, nullptr, nullptr); if (afd < 0) photon::thread_usleep(500); }
+        }
         if (afd < 0) throw Fail{"raw accept"};
         set_nb(afd);
         if (kind == K_TCP) { int one = 1; setsockopt(afd, IPPROTO_TCP, TCP_NODELAY, &one, sizeof one); }
